@@ -329,10 +329,14 @@ func registerModels(ex *Exec) {
 	registerHashModels(ex)
 	registerBigModels(ex)
 	registerSignedBigModels(ex)
+	registerEdwardsModels(ex)
 	registerMiscModels(ex)
 }
 
 func modelZero(ex *Exec, t types.Type) (Value, bool) {
+	if v, ok := ex.edwardsZero(t); ok {
+		return v, true
+	}
 	switch namedPath(t) {
 	case "math/big.Int":
 		return ex.bigZero(), true
